@@ -3,6 +3,7 @@ from ..core import rule
 from ..terms import drop_lv
 from .common import *
 from .removes import roles
+from ..ordset import Reach, Evaluator
 
 WHOLE = {'read', 'read_ctx', 'len', 'is_empty'}
 PER_ELEM_KEY = {'contains', 'get'}
@@ -49,6 +50,94 @@ def _is_empty_clock(t):
     return False
 
 
+def _agg_sites(facts, body):
+    """Statements that build a ReadCtx aggregate in `body`: list of (bb, {field: operand})."""
+    out = []
+    for bb, blk in enumerate(body.blocks):
+        if blk['cleanup']:
+            continue
+        for s in blk['stmts']:
+            if s['k'] == 'assign' and s['rv']['k'] == 'agg' and s['rv'].get('path') == READCTX:
+                out.append((bb, dict(zip(s['rv']['fields'], s['rv']['ops']))))
+    return out
+
+
+def _keyed_read(ctx, facts, adt, name, body, r, sub, props, inst):
+    """contains(k) / get(k): decided path-sensitively.  For each way the looked-up element can be present or absent,
+    the ReadCtx fields are traced back to the definitions that reach the aggregate on the surviving paths."""
+    it = interp(facts, body)
+    sites = _agg_sites(facts, body)
+    if not sites:
+        ctx.shape(inst, body, 'does not build a ReadCtx', props=props)
+        return
+    replica = ('field', ('param', 1), r['clock'])
+
+    def lookup(t):
+        t = drop_lv(t)
+        return is_call(t, ('get', 'get_mut')) and len(t[2]) == 2 and param_path(t[2][0]) == (1, (r['entries'],)) and versionless(t[2][1]) == ('param', 2)
+
+    def atom(t):
+        if t[0] == 'discr' and lookup(t[1]):
+            return ('map', 'has', {True: 1, False: 0})
+        if is_call(t, 'is_some') and t[2] and lookup(t[2][0]):
+            return 'has'
+        if is_call(t, 'is_none') and t[2] and lookup(t[2][0]):
+            return ('not', 'has')
+        if is_call(t, ('contains_key', 'contains')) and len(t[2]) == 2 and param_path(t[2][0]) == (1, (r['entries'],)) and versionless(t[2][1]) == ('param', 2):
+            return 'has'
+        return None
+    errs = []
+    seen_elem = False
+    for has in (True, False):
+        evr = Evaluator(facts, bool_atom=atom, assumption={'has': has})
+        rc = Reach(facts, body, evr)
+        for bb, ops in sites:
+            if bb not in rc.reachable:
+                continue
+
+            def terms_of(op):
+                if op['k'] in ('copy', 'move') and not op['place']['proj']:
+                    return rc.reaching_terms(op['place']['local'], bb)
+                return {it.operand(it.in_states[bb].copy(), op)} if bb in it.in_states else {('top',)}
+            for a in terms_of(ops['add_clock']):
+                if drop_lv(a) != replica:
+                    errs.append('add_clock is %s, expected the replica clock' % fmt(a, 5))
+            for t in terms_of(ops['rm_clock']):
+                t = drop_lv(inline_option_maps(facts, t))
+                ev = elem_value_of(t)
+                is_elem = bool(ev and param_path(ev[0]) == (1, (r['entries'],)) and ev[2] == 'value' and tuple(ev[3]) == tuple(sub)
+                               and versionless(ev[1]) == ('param', 2))
+                if has:
+                    if is_elem:
+                        seen_elem = True
+                    else:
+                        errs.append('when the element is present rm_clock is %s, expected its witness clock entries[element]%s'
+                                    % (fmt(t, 5), ''.join('.' + x for x in sub)))
+                else:
+                    defaulting = is_elem and is_call(t, ('unwrap_or_default', 'unwrap_or', 'unwrap_or_else'))
+                    if not (_is_empty_clock(t) or defaulting):
+                        errs.append('when the element is absent rm_clock is %s, expected the empty clock' % fmt(t, 5))
+            for t in terms_of(ops['val']):
+                t0 = drop_lv(inline_option_maps(facts, t))
+                v = evr.ev(t0)
+                if name == 'contains':
+                    if v is None and t0[0] == 'const':
+                        v = bool(t0[1])
+                    if v is not has:
+                        errs.append('val is %s when the element is %s' % (fmt(t0, 4), 'present' if has else 'absent'))
+                else:
+                    e = elem_value_of(t0)
+                    is_val = bool(e and param_path(e[0]) == (1, (r['entries'],)) and versionless(e[1]) == ('param', 2) and tuple(e[3]) == ('val',))
+                    if has and not is_val:
+                        errs.append('val is %s, expected the nested value stored under the key' % fmt(t0, 4))
+                    if not has and not (is_val or is_variant(t0, 'option::Option', 'None')):
+                        errs.append('val is %s when the key is absent, expected None' % fmt(t0, 4))
+    if not seen_elem and not errs:
+        errs.append('rm_clock is never taken from the element witness clock')
+    ctx.check(not errs, inst, body, 'add_clock = replica clock, rm_clock = element witness clock (empty when absent), val from the same lookup',
+              errs[0] if errs else '', props=props)
+
+
 @rule('CTX-READ', {
     'C07': 'a context taken from the wrong clock either removes unseen data or misses seen data',
     'C04': 'the context returned for a member must be exactly its surviving add witnesses',
@@ -64,13 +153,15 @@ def ctx_read(ctx):
         inst = '%s::%s' % (adt.split('::')[-1], name)
         props = ['C07'] + (['C04'] if adt == ORSWOT else ['C05'])
         body = ctx.inherent(adt, name)
+        if name in PER_ELEM_KEY:
+            _keyed_read(ctx, facts, adt, name, body, r, sub, props, inst)
+            continue
         aggs, m, where = _readctx_of(facts, body)
         if aggs is None:
             ctx.shape(inst, body, 'does not return a ReadCtx (directly or per item)', props=props)
             continue
         replica = ('field', ('param', 1), r['clock'])
         errs = []
-        n_elem = 0
         for agg in aggs:
             f = dict(agg[3])
             add, rmc, val = f.get('add_clock'), f.get('rm_clock'), f.get('val')
@@ -81,44 +172,16 @@ def ctx_read(ctx):
                 if drop_lv(rmc) != replica:
                     errs.append('rm_clock of a whole-collection read is %s, expected the replica clock' % fmt(rmc, 5))
             else:
-                if len(aggs) > 1 and name in PER_ELEM_KEY and _is_empty_clock(rmc):
-                    # explicit "absent" alternative: empty remove context, and the value must say absent
-                    vv0 = drop_lv(val)
-                    if not ((vv0[0] == 'const' and vv0[1] in (0, False)) or is_variant(vv0, 'option::Option', 'None')):
-                        errs.append('an alternative with an empty rm_clock reports the element as present (%s)' % fmt(vv0, 3))
-                    continue
                 ev = elem_value_of(rmc)
                 if ev is None:
                     errs.append('rm_clock is %s, expected the witness clock of the element' % fmt(rmc, 5))
                 else:
-                    cont, key, part, s = ev
+                    cont, key, part, s_ = ev
                     pc = param_path(cont)
-                    if not (pc and pc[0] == 1 and pc[1] == (r['entries'],) and part == 'value' and tuple(s) == tuple(sub)):
+                    if not (pc and pc[0] == 1 and pc[1] == (r['entries'],) and part == 'value' and tuple(s_) == tuple(sub)):
                         errs.append('rm_clock is %s, expected entries[element]%s' % (fmt(rmc, 5), ''.join('.' + x for x in sub)))
-                    elif name in PER_ELEM_KEY:
-                        n_elem += 1
-                        if versionless(key) != ('param', 2):
-                            errs.append('rm_clock is looked up under %s instead of the requested element' % fmt(key, 4))
-                        if len(aggs) == 1 and not is_call(drop_lv(rmc), ('unwrap_or_default', 'unwrap_or', 'unwrap_or_else')):
-                            errs.append('rm_clock of an absent element is not the empty clock')
-                        # val from the same lookup
-                        vv = drop_lv(val)
-                        lookups = [st for st in subterms(vv) if is_call(st, ('get', 'contains_key')) and len(st[2]) == 2]
-                        good = [st for st in lookups if param_path(st[2][0]) and param_path(st[2][0])[:2] == (1, (r['entries'],)) and versionless(st[2][1]) == ('param', 2)]
-                        if not good and not (len(aggs) > 1 and vv[0] == 'const'):
-                            errs.append('val is not derived from the lookup of the requested element')
-                    else:
-                        n_elem += 1
-                        if key != '*':
-                            errs.append('per-item read does not range over the entries')
-        if name not in WHOLE and not n_elem and not errs:
-            errs.append('no alternative takes rm_clock from the element witness clock')
-        agg = aggs[0]
-        val = dict(agg[3]).get('val')
-        if len(aggs) > 1:
-            val = None
-        # the value read (single-aggregate form)
-        if val is not None:
+                    elif key != '*':
+                        errs.append('per-item read does not range over the entries')
             vv = drop_lv(inline_option_maps(facts, val))
             if name == 'read':
                 ok_v = is_call(vv, 'collect') and vv[2] and whole_iteration_over(vv[2][0], 1, (r['entries'],)) and iter_source(vv[2][0])[1] == 'keys' and not iter_source(vv[2][0])[2]
@@ -135,12 +198,8 @@ def ctx_read(ctx):
                 if want_part is not None:
                     if not (e and param_path(e[0]) == (1, (r['entries'],)) and e[2] == want_part[0] and tuple(e[3]) == want_part[1]):
                         errs.append('val of the item is %s, expected the entry %s' % (fmt(vv, 4), 'key' if want_part[0] == 'key' else 'value'))
-            elif name == 'get':
-                e = elem_value_of(vv)
-                if not (e and param_path(e[0]) == (1, (r['entries'],)) and versionless(e[1]) == ('param', 2) and tuple(e[3]) == ('val',)):
-                    errs.append('val is %s, expected the nested value stored under the key' % fmt(vv, 4))
         ctx.check(not errs, inst, where, 'add_clock = replica clock, rm_clock = %s' % ('replica clock' if name in WHOLE else 'element witness clock'),
-                  errs[0] if errs else '', details={'ReadCtx': fmt(agg, 6)}, props=props)
+                  errs[0] if errs else '', details={'ReadCtx': fmt(aggs[0], 6)}, props=props)
 
 
 @rule('CTX-DERIVE', {
